@@ -288,6 +288,12 @@ func (w *World) Verify(c *Contract) (res *TargetResult) {
 		x.lastObl.Group = fmt.Sprintf("ensures%d", e.N)
 	}
 	for _, e := range c.Ensures {
+		if QuickTier && clauseThoroughOnly(e) {
+			// a clause tagged `thorough` is proved by the thorough tier only (a goal that needs
+			// tens of seconds on an idle machine is not part of the check run on every change)
+			x.note("clause left to the thorough tier: %s ensures%d", c.FuncID, e.N)
+			continue
+		}
 		if c.SplitReturns && len(f.rets) > 1 {
 			// proof hint `split returns`: the postcondition is proved once per return statement
 			// (unfolded), each with that return's own values and heap. The return conditions
@@ -491,4 +497,16 @@ func (x *Exec) frameObligations(f *frame, c *Contract, entry, final *Heap, args 
 		x.oblige("frame", k+x.frameSuffix, props, cond, f.fn, token.NoPos)
 		x.lastObl.Group = "frame:" + k
 	}
+}
+
+// QuickTier is set by the quick check: clauses tagged `thorough` are then not generated.
+var QuickTier bool
+
+func clauseThoroughOnly(cl *Clause) bool {
+	for _, p := range cl.Props {
+		if p == "thorough" {
+			return true
+		}
+	}
+	return false
 }
